@@ -122,12 +122,18 @@ def stops_xml(r, pal, n=None):
             offs[2] = offs[1]  # hard stop
     out = ""
     fade = r.random()  # fade-in / fade-out gradients: an end stop that is fully transparent
+    flat = r.random()  # a colour line that begins or ends with a flat run: two stops of one colour and opacity
+    prev = None
     for k_, o in enumerate(offs):
         so = f' stop-opacity="{r.uniform(0.2,1):.2f}"' if r.random() < 0.3 else ""
         if (fade < 0.1 and k_ == 0) or (0.07 < fade < 0.15 and k_ == len(offs) - 1):
             so = ' stop-opacity="0"'
         ostr = f"{o*100:.1f}%" if r.random() < 0.25 else f3(o)
-        out += f'<stop offset="{ostr}" stop-color="{rnd_color(r, pal)}"{so}/>'
+        col = rnd_color(r, pal)
+        if n >= 3 and prev is not None and ((flat < 0.1 and k_ == 1) or (0.06 < flat < 0.16 and k_ == len(offs) - 1)):
+            col, so = prev
+        prev = (col, so)
+        out += f'<stop offset="{ostr}" stop-color="{col}"{so}/>'
     return out
 
 
@@ -245,6 +251,7 @@ def svg_source(r, gi=0, pal=None, vb=None, max_shapes=4, gradients=True, groups=
     defs = []
     gcount = [0]
     meta = {"viewBox": [vbx, vby, vbw, vbh], "shapes": 0, "gradients": 0, "groups": 0, "kinds": []}
+    obb_grads = []
 
     def emit(depth, shared=None):
         out = ""
@@ -266,12 +273,20 @@ def svg_source(r, gi=0, pal=None, vb=None, max_shapes=4, gradients=True, groups=
             meta["shapes"] += 1
             meta["kinds"].append(kind)
             if gradients and r.random() < 0.45:
-                gid = f"grad{gi}_{gcount[0]}"
-                gcount[0] += 1
-                gx, gk = gradient(r, gid, bbox, pal)
-                defs.append(gx)
-                meta["gradients"] += 1
-                fill = f"url(#{gid})"
+                if obb_grads and r.random() < 0.4:
+                    # one objectBoundingBox gradient filling several shapes: the same element, fitted to each
+                    # shape's own bounding box
+                    fill = f"url(#{r.choice(obb_grads)})"
+                    meta["shared_bbox_gradients"] = meta.get("shared_bbox_gradients", 0) + 1
+                else:
+                    gid = f"grad{gi}_{gcount[0]}"
+                    gcount[0] += 1
+                    gx, gk = gradient(r, gid, bbox, pal)
+                    defs.append(gx)
+                    meta["gradients"] += 1
+                    fill = f"url(#{gid})"
+                    if "userSpaceOnUse" not in gx:
+                        obb_grads.append(gid)
             else:
                 fill = rnd_color(r, pal)
             k = r.random()
